@@ -5,3 +5,4 @@ pub mod model;
 pub mod pool;
 pub mod probe;
 pub mod props;
+pub mod sval;
